@@ -99,14 +99,26 @@ def main():
                 state = {"i": 0}
 
                 def fake(*a):
+                    if a and a[0]:
+                        sys.stdout.write(a[0])      # like input(prompt)
                     if state["i"] >= len(answers):
                         state["i"] += 1
                         raise EOFError()
                     x = answers[state["i"]]
                     state["i"] += 1
                     return x
-                old_in, old_out, old_err, old_argv = inter.string_input, sys.stdout, sys.stderr, sys.argv
-                inter.string_input = fake
+
+                class FakeStdin(object):       # for code that calls input() / sys.stdin.readline() directly
+                    def readline(self, *a):
+                        try:
+                            return fake() + "\n"
+                        except EOFError:
+                            return ""
+                old_in, old_out, old_err, old_argv = getattr(inter, "string_input", None), sys.stdout, sys.stderr, sys.argv
+                old_stdin = sys.stdin
+                if old_in is not None:
+                    inter.string_input = fake
+                sys.stdin = FakeStdin()
                 sys.stdout = w
                 errw = Writer()
                 sys.stderr = errw
@@ -130,7 +142,9 @@ def main():
                     except Exception as e:  # noqa
                         outcome = ["raised", errname(e)]
                 finally:
-                    inter.string_input, sys.stdout, sys.stderr, sys.argv = old_in, old_out, old_err, old_argv
+                    sys.stdout, sys.stderr, sys.argv, sys.stdin = old_out, old_err, old_argv, old_stdin
+                    if old_in is not None:
+                        inter.string_input = old_in
                 results.append([outcome, w.getvalue(), errw.getvalue()])
             else:
                 results.append(["bad-op"])
